@@ -78,7 +78,12 @@ func (r *Report) SortWeighted() {
 		if n1.Value.Account.Level() == 1 && n2.Value.Account.Level() == 1 {
 			return compare.Ordered(n1.Value.Account.Type(), n2.Value.Account.Type())
 		}
-		return compare.Decimal(n1.Value.Weight, n2.Value.Weight)
+		if o := compare.Decimal(n1.Value.Weight, n2.Value.Weight); o != compare.Equal {
+			return o
+		}
+		// equal weights: fall back to the name, otherwise the order of the
+		// rows is the iteration order of the children map.
+		return multimap.SortAlpha(n1, n2)
 	}
 	r.AL.Sort(f)
 	r.EIE.Sort(f)
